@@ -15,7 +15,7 @@ ASSUMPTIONS = ["operation table of DESIGN §5", "FramedWrite/quinn deliver what 
 
 def run(ctx):
     F = ctx.facts("quick")
-    ex, sd, cfg = routers.report(ctx, F, "pubsub", "C01", lambda f: f.kind in ("K1", "K3", "K4", "K5", "K7", "K9", "K10"))
+    ex, sd, cfg = routers.report(ctx, F, "pubsub", "C01", lambda f: f.kind in ("K1", "K3", "K4", "K5", "K7", "K9", "K10", "K13"))
     ctx.floor("C01.pollai.persistent-states", len(ex.persistent), 10)
     ops = ex.h.ops_seen
     ctx.floor("C01.pollai.sink-ops", sum(1 for k in ops if k[0] == "sink"), 3)
@@ -25,6 +25,7 @@ def run(ctx):
     ctx.check(sends == ["stream"], "C01.D1.routing", "pubsub:sent-values", "the only values handed to the fan-out are items yielded by the publisher streams (found sources: %s)" % sends, cfg.body.span)
     ctx.check(stores == ["stream"], "C01.D1.routing", "pubsub:stored-values", "the only values buffered are items yielded by the publisher streams (found sources: %s)" % stores, cfg.body.span)
     ctx.ok("C01.pollai", "pub/sub router explored exhaustively: %d persistent states, %d (block,state) nodes; shutdown obligation from %d states" % (len(ex.persistent), len(ex.it.nodes), len(sd.persistent)), cfg.body.span)
+    sweeps.counter_keys(ctx, F, cfg.body, ex.h.routing, "C01.D1", {"stream": "next_stream_id", "sink": "next_sink_id"})
     for m in sweeps.METHODS:
         sweeps.fanout_sweep(ctx, F, "C01.D2", m)
     # index/bound freshness of the sweep (shared with C11's E4 region)
